@@ -165,7 +165,7 @@ PROPS = {
         level_note="Blocking-query mode (pollinterval=0). The fake Consul serves consistent snapshots (index monotonic, blocks until change); stale reads and partial failures of Consul are not modelled. State merging key = (registry model, last good table); hidden loop state (svccfg, mancfg, lastTable, watcher indexes) is a function of those after quiescence, and each replay first drives the pipeline back to the initial state and checks the table (differential oracle).",
         units=[
         unit("c01-health", "registry/consul", ["consul/c14_test.go", "consul/c01_test.go"], "^TestVerifC01"),
-        unit("c01-pipeline", ".", MAIN_COMMON + ["main/c02_hist_test.go", "main/c01_test.go"], "^TestVerifC01", shards={"quick": 4, "thorough": 16}),
+        unit("c01-pipeline", ".", MAIN_COMMON + ["main/c02_hist_test.go", "main/c01_test.go"], "^TestVerifC01", shards={"quick": 4, "thorough": 16}, race=True),
     ], layers={"quick": ["c01-health", "c01-pipeline"], "thorough": ["c01-health", "c01-pipeline"]}),
     "C09": dict(level="model_checking", engine="vsched",
         technique="stateless model checking: controlled scheduler over the real ServeTCP of the three TCP proxies (and the websocket relay) with in-memory connections; scenario product x all interleavings up to a preemption bound",
